@@ -13,7 +13,13 @@ Loops can also be given *forwards* (`form: zpk`: zeros `zr`, poles `ol` in the p
 `k`, L = k prod(x - z_i)/prod(x - p_i)); then Z is counted exactly by Routh tables over Q (`c13_exact`), for the exact
 polynomial and for the binary64 coefficients the implementation receives.
 
-Per case five driver lines:
+A continuous-time loop can be declared with `dt = 0` (field `tb` absent) or with an unspecified timebase (`tb: "N"`,
+dt=None: nyquist_response treats it as continuous), and it can get its timebase by different routes (`route`): the
+constructor keyword, the configured `control.default_dt` (None in the 0.8.x legacy defaults), `ss(sys, dt=None)`, or a
+product with a static gain (whose timebase is None).  `scale` records that all roots were multiplied by a power of ten
+(dynamics far outside 0.01 .. 100 rad/s, the range a loop without any pole / zero feature gets).
+
+Per case six driver lines:
  (a) `count`   – the model's unwrap/count applied to the implementation's own samples
                  `response.response` (exact rationals of the floats) and `np.angle(resp+1)` (external,
                  quadrant contract checked by the driver) vs `response.count`;
@@ -27,6 +33,10 @@ Per case five driver lines:
                  contour comparison (b) is fed with and vs the grid of the implementation's helper;
  (e) `omega`   – the model's `defaultOmega` (linspace from 0, cut below / append the Nyquist frequency) vs the
                  frequencies (b) is fed with;
+ (f) `tb`      – the model's timebase decisions (`loopTimebase` = common_timebase of the parts the loop is a product of,
+                 `featureBranch` of _default_frequency_range, `nyquistFreq`, `polesInSPlane`, isctime / isdtime) vs
+                 the timebase and the predicates of the system the implementation built and vs the branch the harness
+                 feeds (b), (d), (e) with (decided from the case, never by asking the implementation);
 and, outside the driver, the property itself: `response.count == Z - P` whenever the loop is inside
 the quantifier of the property (see `in_claim`)."""
 import math
@@ -158,20 +168,85 @@ def float_coeffs(case):
     return [float(x) for x in num], [float(x) for x in den]
 
 
+ROUTES = ("kw", "kw0", "default", "sskw", "unit")
+DT_KEY = "control.default_dt"
+
+
+def route_of(case):
+    """how the loop gets its timebase
+    kw      : constructor keyword (`dt=None` for tb N, the sampling time; nothing for dt = 0: the configured default)
+    kw0     : `dt=0` spelled out
+    default : no keyword while `config.defaults['control.default_dt']` is None (what use_legacy_defaults('0.8.x') sets)
+    sskw    : state space only: the realisation of the loop declared continuous is redeclared `ss(sys, dt=None)`
+    unit    : product of a static unit gain (`tf(1, 1)` / `ss([], [], [], 1)`: timebase None) and the loop"""
+    return case.get("route", "kw")
+
+
+def tb_none(case):
+    return (not case["disc"]) and case.get("tb") == "N"
+
+
+def disc_dt(case):
+    """the number `sys.dt` of a discrete-time case (`True` counts as 1)"""
+    return 1.0 if case["T"] == "true" else float(F(case["T"]))
+
+
+def base_dt_tok(case):
+    """driver token of the timebase the loop is declared with"""
+    if case["disc"]:
+        return "T" if case["T"] == "true" else "D" + ftok(float(F(case["T"])))
+    return "N" if tb_none(case) else "C"
+
+
+def tb_parts(case):
+    """timebases of the factors the loop is a product of"""
+    return (["N"] if route_of(case) == "unit" else []) + [base_dt_tok(case)]
+
+
+def impl_dt_tok(dt):
+    if dt is None:
+        return "N"
+    if dt is True:
+        return "T"
+    if isinstance(dt, (bool, np.bool_)):
+        return "bool:%r" % (dt,)
+    return "C" if dt == 0 else "D" + ftok(dt)
+
+
 def make_system(case):
     numf, denf = float_coeffs(case)
+    route = route_of(case)
     if case["disc"]:
         dt = True if case["T"] == "true" else float(F(case["T"]))
         sys = ct.tf(numf, denf, dt)
+    elif tb_none(case) and route in ("kw", "unit"):
+        sys = ct.tf(numf, denf, dt=None)
+    elif route == "kw0":
+        sys = ct.tf(numf, denf, dt=0)
     else:
-        sys = ct.tf(numf, denf)
+        sys = ct.tf(numf, denf)             # the configured default timebase (run_case: None for route `default`)
     if case["rep"] == "ss":
         sys = ct.tf2ss(sys)
+        if route == "sskw":
+            sys = ct.ss(sys, dt=None)
+    if route == "unit":
+        # multiplication by 1.0 is exact: the coefficients / matrices are still the ones of `float_coeffs`
+        one = ct.ss([], [], [], [[1.]]) if case["rep"] == "ss" else ct.tf([1.], [1.])
+        sys = one * sys
     return sys
 
 
 def valid(case):
     try:
+        route = route_of(case)
+        if route not in ROUTES or case.get("tb", "N") != "N" or (case.get("tb") and case["disc"]):
+            return False
+        if route in ("default", "sskw") and not tb_none(case):
+            return False
+        if route == "sskw" and case["rep"] != "ss":
+            return False
+        if route == "kw0" and (case["disc"] or tb_none(case)):
+            return False
         if fwd(case):
             if deg(case["ol"]) == 0 or deg(case["zr"]) > deg(case["ol"]) or F(case["k"]) == 0:
                 return False
@@ -201,6 +276,28 @@ def case_T(case):
     return F(1) if case["T"] == "true" else F(case["T"])
 
 
+def scale_root(r, alpha):
+    return [r[0]] + [tok(F(x) * alpha) for x in r[1:]]
+
+
+def scale_case(case, alpha):
+    """the loop L(s / alpha) of a continuous-time case: every root multiplied by alpha (a forward-built loop: the gain
+    by alpha ** relative degree, so that the shape of the Nyquist curve is unchanged); `scale` records the factor"""
+    alpha = F(alpha)
+    new = dict(case, ol=[scale_root(r, alpha) for r in case["ol"]])
+    if fwd(case):
+        new["zr"] = [scale_root(r, alpha) for r in case["zr"]]
+        new["k"] = tok(F(case["k"]) * alpha ** (deg(case["ol"]) - deg(case["zr"])))
+    else:
+        new["cl"] = [scale_root(r, alpha) for r in case["cl"]]
+    tot = F(case.get("scale", "1")) * alpha
+    if tot == 1:
+        new.pop("scale", None)
+    else:
+        new["scale"] = tok(tot)
+    return new
+
+
 # ----------------------------------------------------------------------------
 # running the implementation
 # ----------------------------------------------------------------------------
@@ -223,32 +320,34 @@ def ctoks(z):
     return [ftok(z.real), ftok(z.imag)]
 
 
-def splane_poles(sys, which):
-    """the poles exactly as nyquist_response derives them (lines 1381-1396)"""
+def splane_poles(sys, which, case):
+    """the poles as nyquist_response is documented to derive them (lines 1381-1396); the branch is decided from the
+    case (model: `polesInSPlane`), not by asking the implementation's isctime()"""
     s = sys if which == "ol" else sys.feedback()
     p = s.poles()
-    if sys.isctime():
+    if not case["disc"]:
         return p, p
     z = p[~np.isclose(abs(p), 0.)]
     with np.errstate(all="ignore"):
-        return p, np.log(z) / sys.dt
+        return p, np.log(z) / disc_dt(case)
 
 
-def spec_features(sys):
-    """(log10 of the features, log10 of freq_interesting), selected exactly as `_default_frequency_range` does
-    (lines 2779-2820): the inputs of the Lean model `Nyquist.rangeExponents` (log10 is external)"""
+def spec_features(sys, case):
+    """(log10 of the features, log10 of freq_interesting), selected as `_default_frequency_range` is documented to
+    (lines 2779-2820): the inputs of the Lean model `Nyquist.rangeExponents` (log10 is external).  The branch is the
+    model's `featureBranch` of the timebase of the case (continuous for dt = 0 and dt = None), compared in (f)."""
     interesting = []
-    if sys.isctime():
+    if not case["disc"]:
         f = np.concatenate((np.abs(sys.poles()), np.abs(sys.zeros())))
         f = f[~np.isclose(f, 0.0)]
     else:
-        fn = math.pi / sys.dt
+        fn = math.pi / disc_dt(case)
         interesting.append(fn * 0.9)
         f = np.concatenate((np.abs(sys.poles()), np.abs(sys.zeros())))
         drop = np.isclose(f.imag, 0.0) & ((f.real <= 0.) | (np.abs(f.real - 1.0) < 1.e-10))
         f = f[~drop]
         with np.errstate(all="ignore"):
-            f = np.abs(np.log(f) / (1.j * sys.dt))
+            f = np.abs(np.log(f) / (1.j * disc_dt(case)))
     if f.shape[0] == 0:
         f = np.array([1.])
     with np.errstate(all="ignore"):
@@ -273,11 +372,11 @@ def rint_marginal(logs, decades=2):
     return False
 
 
-def default_omega(sys, indent_points, raw):
+def default_omega(case, indent_points, raw):
     """omega_sys before any insertion (lines 1344-1369), default arguments, from the logarithmic grid `raw`"""
     omega = np.concatenate((np.linspace(0, raw[0], indent_points), raw[1:]))
-    if sys.isdtime(strict=True):
-        nyq = math.pi / sys.dt
+    if case["disc"]:
+        nyq = math.pi / disc_dt(case)
         omega = np.hstack((omega[omega < nyq], nyq))
     return omega
 
@@ -298,24 +397,36 @@ def run_case(case):
     """everything observed on the real code for one case (not JSON: holds arrays).  `case["cfg"]` (optional): the
     user has configured another default periphery of frequency plots before the call (nyquist_response asks for
     two decades explicitly, so the count must not depend on it); restored afterwards."""
-    if case.get("cfg") is None:
+    sets = {}
+    if case.get("cfg") is not None:
+        sets[CFG_KEY] = float(F(case["cfg"]))
+    if route_of(case) == "default":
+        sets[DT_KEY] = None                   # as after use_legacy_defaults('0.8.x'): unspecified default timebase
+    if not sets:
         return run_case_(case)
     missing = object()
-    old = ct.config.defaults.get(CFG_KEY, missing)
-    ct.config.defaults[CFG_KEY] = float(F(case["cfg"]))
+    old = {k: ct.config.defaults.get(k, missing) for k in sets}
+    ct.config.defaults.update(sets)
     try:
         return run_case_(case)
     finally:
-        if old is missing:
-            del ct.config.defaults[CFG_KEY]
-        else:
-            ct.config.defaults[CFG_KEY] = old
+        for k, v in old.items():
+            if v is missing:
+                del ct.config.defaults[k]
+            else:
+                ct.config.defaults[k] = v
 
 
 def run_case_(case):
     out = {}
     sys = make_system(case)
     out["sys"] = sys
+    out["dt"] = sys.dt
+    try:
+        out["pred"] = [bool(sys.isctime()), bool(sys.isctime(strict=True)),
+                       bool(sys.isdtime()), bool(sys.isdtime(strict=True))]
+    except Exception as e:  # noqa
+        out["pred"] = "%s: %s" % (type(e).__name__, str(e)[:80])
     kw = {}
     if case["dir"] != "right":
         kw["indent_direction"] = case["dir"]
@@ -325,6 +436,14 @@ def run_case_(case):
             resp = ct.nyquist_response(sys, **kw)
         except Exception as e:  # noqa
             out["exc"] = "%s: %s" % (type(e).__name__, str(e)[:120])
+            try:
+                # the poles as the root finder located them still decide whether the loop is inside the quantifier
+                # (integrators located as 1 +- eps: "classified by rounding error", outside the claim)
+                out["zpoles"], out["spoles"] = splane_poles(sys, "ol", case)
+                out["zclpoles"], out["sclpoles"] = splane_poles(sys, "cl", case)
+            except Exception:  # noqa
+                for k in ("zpoles", "spoles", "zclpoles", "sclpoles"):
+                    out.pop(k, None)
             return out
     msgs = [str(w.message) for w in wl]
     out["warn_criterion"] = any("does not match Nyquist criterion" in m for m in msgs)
@@ -336,14 +455,14 @@ def run_case_(case):
     n = ct.config._get_param("nyquist", "indent_points", None, _fp._nyquist_defaults)
     out["r"], out["npts"] = r, n
     try:
-        out["zpoles"], out["spoles"] = splane_poles(sys, "ol")
-        out["zclpoles"], out["sclpoles"] = splane_poles(sys, "cl")
+        out["zpoles"], out["spoles"] = splane_poles(sys, "ol", case)
+        out["zclpoles"], out["sclpoles"] = splane_poles(sys, "cl", case)
         # the documented default grid: logspace between the exponents of the model `nyquistExponents`
         num = ct.config._get_param("freqplot", "number_of_samples", None)
-        out["logs"], out["interesting"] = spec_features(sys)
+        out["logs"], out["interesting"] = spec_features(sys, case)
         out["lohi"] = spec_exponents(out["logs"], out["interesting"])
         out["raw"] = np.logspace(out["lohi"][0], out["lohi"][1], num=num, endpoint=True)
-        out["omega"] = default_omega(sys, n, out["raw"])
+        out["omega"] = default_omega(case, n, out["raw"])
     except Exception as e:  # noqa  (the contour sub-check is skipped)
         out["aux_exc"] = "%s: %s" % (type(e).__name__, str(e)[:120])
     try:
@@ -390,7 +509,9 @@ class C13(Family):
             "by Routh tables: high loop gain (|k| 30 .. 1e5, gain crossover decades above the dynamics), poles and "
             "zeros spread over four decades, delays z^-n, sampling times 1/100 .. 5, and discrete-time loops with "
             "every pole and zero within 3 % of the unit circle and a mode next to z = -1; per loop also the default "
-            "grid (range exponents, start at 0, end at Nyquist) against the model; "
+            "grid (range exponents, start at 0, end at Nyquist) against the model; continuous-time loops also with "
+            "unspecified timebase (dt=None by keyword, by the configured default_dt, by ss(sys, dt=None), by a product "
+            "with a static gain) and with all roots scaled by 1/100 .. 10^4 (dynamics outside 0.01 .. 100 rad/s); "
             "non-trivial = dynamic loop with Z != 0 or P != 0 or an indentation")
 
     def __init__(self):
@@ -502,10 +623,38 @@ class C13(Family):
             case["cfg"] = rng.choice(["0", "1/2", "3"])      # user-configured default periphery (must not matter)
         return case
 
+    FAST = ["100", "1000", "10000"]
+    SLOW = ["1/10", "1/100"]
+    SCALABLE = ("generic", "left", "lightcl", "scaled", "highgain", "zpk")
+
     def gen_one(self, rng, kind):
+        """one case of the kind, then the declaration of its timebase (`tb`, `route`) and the frequency scale"""
+        case = self.gen_plain(rng, kind)
+        if case["disc"]:
+            if rng.random() < 0.1:
+                case["route"] = "unit"                   # a static gain (timebase None) times the sampled loop
+            return case
+        # frequency scale: the whole loop decades above / below 1 rad/s
+        x = rng.random()
+        if kind == "scaled":
+            case = scale_case(case, rng.choice(self.FAST if x < 0.85 else self.SLOW))
+        elif kind in self.SCALABLE and x < 0.12:
+            case = scale_case(case, rng.choice(self.FAST + self.SLOW + ["10"]))
+        # timebase: unspecified (dt=None) or continuous, by different routes
+        x = rng.random()
+        if x < (0.6 if kind == "scaled" else 0.25):
+            case["tb"] = "N"
+            route = rng.choice(["kw", "kw", "default", "unit"] + (["sskw", "sskw"] if case["rep"] == "ss" else []))
+            if route != "kw":
+                case["route"] = route
+        elif x > 0.9:
+            case["route"] = rng.choice(["kw0", "unit"])
+        return case
+
+    def gen_plain(self, rng, kind):
         if kind in FWD_KINDS:
             return self.gen_fwd(rng, kind)
-        disc = rng.random() < 0.45
+        disc = rng.random() < 0.45 and kind != "scaled"
         case = {"kind": kind, "disc": disc,
                 "T": rng.choice(["1/10", "1/4", "1/2", "1", "true", "1/8"]) if disc else "0",
                 "rep": rng.choice(["tf", "ss"]), "dir": "right",
@@ -515,6 +664,10 @@ class C13(Family):
             for _ in range(rng.choice([0, 0, 0, 1, 1, 2])):
                 ol.append(["r", "0"])
             ol += self.fill(rng, rng.randint(1, 5))
+        elif kind == "scaled":        # continuous time; gen_one moves all roots decades away from 1 rad/s
+            for _ in range(rng.choice([0, 0, 0, 1])):
+                ol.append(["r", "0"])
+            ol += self.fill(rng, rng.randint(1, 4))
         elif kind == "axis":          # purely imaginary open-loop poles (outside the claim)
             for _ in range(rng.choice([0, 1])):
                 ol.append(["r", "0"])
@@ -570,6 +723,12 @@ class C13(Family):
             c = self.gen_one(rng, rng.choice(FWD_KINDS))
             if valid(c):
                 out.append(c)
+        # loops whose dynamics lie decades away from 1 rad/s, most of them with unspecified timebase
+        m = len(out) + (40 if tier == "quick" else 600)
+        while len(out) < m:
+            c = self.gen_one(rng, "scaled")
+            if valid(c):
+                out.append(c)
         out += [self.gen_unwrap(rng) for _ in range(40 if tier == "quick" else 600)]
         return out
 
@@ -609,6 +768,13 @@ class C13(Family):
             mk(k="20000", ol=[["r", "-1"], ["r", "-2"]]),
             # two modes next to z = -1 behind the 0.9 pi/dt end of the logarithmic grid (C13-dtime-nyquist-gap)
             mk(k="1/10", ol=[["r", "-97/100"], ["r", "-199/200"]], disc=True, T="1/10"),
+            # unspecified timebase (dt=None), dynamics above the range a loop without features would get
+            mk(k="20000000", ol=[["r", "-100"], ["r", "-100"], ["r", "-100"]], tb="N"),
+            mk(k="20000000", ol=[["r", "-100"], ["r", "-100"], ["r", "-100"]], tb="N", rep="ss", route="sskw"),
+            mk(k="-3000", ol=[["r", "-1000"]], tb="N", route="default"),
+            mk(k="5000", ol=[["r", "1000"], ["r", "-2000"]], zr=[["r", "-500"]], tb="N", route="unit"),
+            # ... and below it
+            mk(k="1/2500", ol=[["r", "1/100"], ["r", "-1/50"]], tb="N"),
         ]
 
     # ---- execution --------------------------------------------------------
@@ -668,14 +834,17 @@ class C13(Family):
             parts = ["nyq grid", tok(cfg), str(len(o["logs"]))] + [ftok(x) for x in o["logs"]]
             parts += [str(len(o["interesting"]))] + [ftok(x) for x in o["interesting"]]
             lines.append(" ".join(parts))
-            sysd = o["sys"]
-            if sysd.isdtime(strict=True) or zlib.crc32(canon(case).encode()) % 4 == 0:
-                # every discrete-time case (the cut at the Nyquist frequency) and a quarter of the others
-                nyq = ftok(math.pi / sysd.dt) if sysd.isdtime(strict=True) else "N"
+            if case["disc"] or tb_none(case) or zlib.crc32(canon(case).encode()) % 4 == 0:
+                # every discrete-time case (the cut at the Nyquist frequency), every case with unspecified timebase
+                # and a quarter of the others
+                nyq = ftok(math.pi / disc_dt(case)) if case["disc"] else "N"
                 parts = ["nyq omega", str(o["npts"]), nyq, str(len(o["raw"]))] + [ftok(w) for w in o["raw"]]
                 lines.append(" ".join(parts))
             else:
                 lines.append("nyq unwrap 1 0")
+        # (f) timebase of the loop and what follows from it
+        parts = tb_parts(case)
+        lines.append("nyq tb %s %d %s" % (PI_TOK, len(parts), " ".join(parts)))
         return lines
 
     def in_claim(self, case, o):
@@ -836,6 +1005,7 @@ class C13(Family):
         res = {"P": P, "Z": Z}
         if "exc" in o:
             res["err"] = o["exc"]
+            res["in_claim"], res["why"] = self.in_claim(case, o if "sclpoles" in o else {})
             return res
         res["count"] = o["count"]
         res["npoints"] = int(len(o["contour"]))
@@ -851,8 +1021,14 @@ class C13(Family):
         if case["kind"] == "unwrap":
             t = out.split()
             return {"out": [tok(F(x)) for x in t[2:]]} if t[0] == "ok" else {"err": out}
-        a, b, c, d, e = out
+        a, b, c, d, e, f = out
         m = {}
+        t = f.split()
+        if t[0] == "err":
+            m["tb_err"] = t[1]
+        elif t[0] == "ok" and len(t) == 9:
+            m["tb"] = {"dt": t[1], "branch": t[2], "nyq": t[3], "splane": t[4] == "1",
+                       "pred": [x == "1" for x in t[5:9]]}
         t = d.split()
         if t[0] == "ok" and len(t) == 3:
             m["grid"] = [tok(F(t[1])), tok(F(t[2]))]
@@ -894,10 +1070,15 @@ class C13(Family):
     # ---- comparison -------------------------------------------------------
     def features(self, case, kind, extra=None):
         f = {"kind": kind, "timebase": "disc" if case["disc"] else "cont", "rep": case["rep"],
-             "form": "zpk" if fwd(case) else "poles", "lightly_damped": self.lightly_damped(case)}
+             "form": "zpk" if fwd(case) else "poles", "lightly_damped": self.lightly_damped(case),
+             "dt": self.dt_label(case), "route": route_of(case)}
         if extra:
             f.update(extra)
         return f
+
+    @staticmethod
+    def dt_label(case):
+        return {"N": "None", "C": "0", "T": "True"}.get(base_dt_tok(case), "number")
 
     @staticmethod
     def splane_of(rt, case):
@@ -967,22 +1148,55 @@ class C13(Family):
         # (d) the range of the default grid, (e) start at 0 / stop at the Nyquist frequency
         d_diff = self.compare_grid(o, model)
         e_diff = self.compare_omega(case, o, model)
+        f_diff = self.compare_tb(case, o, model)
         if prop_fails:
             mech = self.mechanism(case, o)
             # known findings are about the adequacy of the DOCUMENTED default contour: they can only match when the
             # contour the implementation used is the model's contour (documented grid, inserted points, indentation)
             extra = {"model_count_agrees": a_diff is None,
-                     "contour_model_agrees": "_pts" in model and b_diff is None and d_diff is None and e_diff is None}
+                     "contour_model_agrees": "_pts" in model and b_diff is None and d_diff is None and
+                     e_diff is None and f_diff is None}
             extra.update({k: mech[k] for k in ("sampling", "aliased_at", "spec_range")})
             return Verdict(VIOLATES, "count %d but Z - P = %d - %d (exact %s)%s; contour: %s" % (
                 impl["count"], impl["Z"], impl["P"], "Routh count" if fwd(case) else "construction",
                 "; " + a_diff if a_diff else "", mech),
                 self.features(case, "count-vs-ZP", extra))
-        for kind, d in (("count-model", a_diff), ("grid-range", d_diff), ("omega", e_diff), ("contour", b_diff),
-                        ("criterion-warning", c_diff)):
+        for kind, d in (("count-model", a_diff), ("timebase", f_diff), ("grid-range", d_diff), ("omega", e_diff),
+                        ("contour", b_diff), ("criterion-warning", c_diff)):
             if d:
                 return Verdict(DIFFERS, d, self.features(case, kind))
         return Verdict(AGREE)
+
+    @staticmethod
+    def compare_tb(case, o, model):
+        """(f): the model's timebase decisions against (1) the system the implementation built (its `dt`, isctime /
+        isdtime with and without `strict`), (2) the branch the harness selected the features, the Nyquist cut and
+        the s-plane mapping by (from the case)"""
+        if "tb_err" in model:
+            return "model: the factors %s have no common timebase (%s); the implementation built dt=%r" % (
+                tb_parts(case), model["tb_err"], o.get("dt"))
+        if "tb" not in model:
+            return None
+        m = model["tb"]
+        want = base_dt_tok(case)
+        if m["dt"] != want:
+            return "timebase of the loop: model %s, declared %s" % (m["dt"], want)
+        got = impl_dt_tok(o.get("dt"))
+        if got != m["dt"]:
+            return "timebase of the system built by route %s: dt=%r (%s), model %s" % (
+                route_of(case), o.get("dt"), got, m["dt"])
+        if o.get("pred") != m["pred"]:
+            return "isctime(), isctime(strict), isdtime(), isdtime(strict) of a system with dt=%r: %r, model %r" % (
+                o.get("dt"), o.get("pred"), m["pred"])
+        if m["branch"] != ("D" if case["disc"] else "C") or m["splane"] != (not case["disc"]):
+            return "feature branch / s-plane mapping: model %s/%s, harness %s" % (
+                m["branch"], m["splane"], "discrete" if case["disc"] else "continuous")
+        if case["disc"]:
+            if m["nyq"] == "N" or abs(float(F(m["nyq"])) - math.pi / disc_dt(case)) > 1e-14 * math.pi / disc_dt(case):
+                return "Nyquist frequency: model %s, pi/dt = %r" % (m["nyq"], math.pi / disc_dt(case))
+        elif m["nyq"] != "N":
+            return "Nyquist frequency: model %s for a loop treated as continuous" % m["nyq"]
+        return None
 
     @staticmethod
     def compare_grid(o, model):
@@ -1073,13 +1287,15 @@ class C13(Family):
         st = {"kind": case["kind"], "timebase": "disc" if case["disc"] else "cont", "rep": case["rep"],
               "order": deg(case["ol"]), "dir": case["dir"],
               "biproper": (deg(case["zr"]) == deg(case["ol"])) if fwd(case) else case["k"] != "1",
-              "form": "zpk" if fwd(case) else "poles", "configured_periphery": case.get("cfg", "default")}
+              "form": "zpk" if fwd(case) else "poles", "configured_periphery": case.get("cfg", "default"),
+              "dt": self.dt_label(case), "route": route_of(case), "scale": case.get("scale", "1"),
+              "timebase_checked": "tb" in model}
         if fwd(case):
             g = abs(F(case["k"]))
             st["gain"] = "<1" if g < 1 else "1..30" if g <= 30 else "30..1000" if g <= 1000 else ">1000"
             st["relative_degree"] = deg(case["ol"]) - deg(case["zr"])
         if "err" in impl:
-            st["outcome"] = "raises"
+            st["outcome"] = "raises/%s" % impl.get("why", "?")
             return st
         st["claim"] = impl["why"]
         st["Z-P"] = impl["Z"] - impl["P"]
@@ -1092,6 +1308,9 @@ class C13(Family):
                               ("helper-grid", "raw_impl" in o), ("omega", "omega_n" in model)) if ok]
         st["grid_checked"] = "+".join(gc) if gc else "none"
         st["warned"] = impl["warn_criterion"]
+        if impl["in_claim"]:
+            st["dt=%s,scale=%s:count==Z-P" % (self.dt_label(case), case.get("scale", "1"))] = \
+                impl["count"] == impl["Z"] - impl["P"]
         hyp = hypotheses_label(self.arg_case(case), o)   # C13Arg.count_continuous: H2 + tail on the real contour
         st["argprinciple_hyp"] = hyp
         # mechanism statistics (all cases): is the contour sampled without aliasing / does the documented range close it
@@ -1129,6 +1348,18 @@ class C13(Family):
             for i in range(len(case["a"])):
                 yield dict(case, a=case["a"][:i] + case["a"][i + 1:])
             return
+        if "route" in case:
+            new = {k: v for k, v in case.items() if k != "route"}
+            if valid(new):
+                yield new
+        if "tb" in case:
+            new = {k: v for k, v in case.items() if k not in ("tb", "route")}
+            if valid(new):
+                yield new
+        if "scale" in case and not case["disc"]:
+            new = scale_case(case, 1 / F(case["scale"]))
+            if valid(new):
+                yield new
         if fwd(case):
             ol, zr = case["ol"], case["zr"]
             for i in range(len(ol)):
@@ -1167,7 +1398,7 @@ class C13(Family):
             if valid(new):
                 yield new
 
-    KINDS = ("generic", "axis", "near", "light", "lightcl", "left") + FWD_KINDS
+    KINDS = ("generic", "axis", "near", "light", "lightcl", "left", "scaled") + FWD_KINDS
 
     def search(self, rng, case, tier):
         out = []
